@@ -25,7 +25,7 @@ REQUIRED_MONITORS = ["prim:checked", "programs:transformed", "outputs:compared",
 REQUIRED_REACH = {"transforms/_simulate_format.py": ["_quantised_linear", "_quantised_scaled_dot_product_attention", "_replace_with_quantised",
                                                      "_quantisation_backend.<locals>.backend_fn", "simulate_format", "simulate_fp8"],
                   "formats.py": ["FPFormat.quantise_fwd", "FPFormat.quantise_bwd", "format_to_tuple", "tuple_to_format"]}
-MIN_NONTRIVIAL = {"quick": 90, "thorough": 2000}
+MIN_NONTRIVIAL = {"quick": 90, "thorough": 3000}
 FORMS = ["bias_kw", "mask_pos", "uu", "linear_2arg"]
 
 
